@@ -1374,7 +1374,7 @@ class RaceInterp(Interp):
         if getattr(f, "__name__", "") == "get_num_threads":
             # size of the thread pool: one arbitrary positive value shared by both iterations
             v = z3.Int("num_threads")
-            self.cons.append(v >= 1)
+            self.cons.append(v >= 2)      # two iterations can only run concurrently on a pool of at least two threads
             return Sym(v, types.int64)
         if f in (np.empty, np.zeros, np.empty_like, np.zeros_like):
             self.nfresh += 1
